@@ -61,6 +61,25 @@ CHECKS = {
             "Euler kernels == field + flux(field) and SSP-RK3 == (I+A+A^2/2+A^3/6) with A from the public flux kernel, for "
             "generated fields/velocities/steps/shapes/precisions; the same identities as exact equalities when the repo's "
             "Python wrappers are run on Fraction arrays.", "3/C20", ""),
+    "C06": (True, "Stratified Hypothesis over marker position classes (cell centres/faces +- ulps, clustered, duplicates) with moment-condition oracles on the real numba kernels",
+            "Real support/weights/interpolation/spreading kernels driven as VirtualBoundaryForcing drives them; partition of unity, "
+            "non-negativity, compact support, Peskin first moment, exact reproduction of constants/affine fields/the simulator's own "
+            "position_field.", "3/C06", ""),
+    "C07": (True, "Stratified Hypothesis: adjointness/force/torque invariants between the real interpolation and spreading kernels + independent numpy delta-function reference for accumulation",
+            "Adjoint identity, total force, Peskin first moment, and accumulation over pre-filled targets / overlapping supports / "
+            "repeated calls against an independent float64 reference.", "3/C07", ""),
+    "C08": (True, "Stratified Hypothesis over all forcing-grid classes x generated poses/rods/forces: momentum, moment and power balance invariants; end-to-end balance through the real interaction classes",
+            "Net force, net moment about a drawn point (nodal forces + lab-frame element couples) and power balance of "
+            "transfer_forcing_from_grid_to_body for every grid class; fluid+body force balance through "
+            "ImmersedBodyFlowInteraction.__call__/compute_flow_forces_and_torques.", "3/C08", ""),
+    "C09": (True, "Stratified Hypothesis over all forcing-grid classes: marker positions/velocities vs independent rigid-section kinematics, exact pose advance with Taylor-remainder bound",
+            "Independent float64 kinematics reference (lab-frame angular velocity, mass-weighted element velocity, Rodrigues "
+            "pose advance) for every rigid-body and rod grid, incl. radius/cap-ratio geometry and bit-identity of the nodal grid.",
+            "3/C09", ""),
+    "C10": (True, "Hypothesis stateful machine (evaluate / body forces / time_step / move / change flow / consume forcing; 1-3 bodies sharing one field) against a Python model of the PI law",
+            "Model-based testing of call histories on real ImmersedBodyFlowInteraction / RigidBodyFlowInteraction objects: after "
+            "every rule the marker force, integral, mismatch, time and the shared Eulerian field equal the model; flow velocity and "
+            "body state bit-identical; velocity view read-only.", "3/C10", ""),
 }
 
 NOT_BUILT_REASON = "check not built yet (work in progress in this session; will be claimed once its generated check is registered)"
